@@ -476,9 +476,34 @@ def expand_cases(case, r):
     return out
 
 
+def ref_counts(e, names, cnt):
+    if e[0] == "id":
+        cnt[e[1]] = cnt.get(e[1], 0) + 1
+    elif e[0] == "sel":
+        for n in names:
+            if (e[2] == "them" or glob_match(e[2], n)) and (e[2].startswith("_") or not n.startswith("_")):
+                cnt[n] = cnt.get(n, 0) + 1
+    elif e[0] == "not":
+        ref_counts(e[1], names, cnt)
+    else:
+        for a in e[1]:
+            ref_counts(a, names, cnt)
+    return cnt
+
+
+def shared_detection_noteq(case):
+    """In not-equals mode the negation of a leaf is decided by walking parent links of the *shared*
+    detection objects, so a detection referenced several times takes the polarity of its last
+    reference. That aliasing is not modelled: such cases are skipped (and counted)."""
+    if not case["k"]["not_eq"]:
+        return False
+    names = [n for n in case["rule"]["detection"] if n != "condition"]
+    return any(v > 1 for ex in case["exprs"] for v in ref_counts(ex, names, {}).values())
+
+
 def struct_to_coq(case, r):
     items = expand_cases(case, r)
-    if not items:
+    if not items or shared_detection_noteq(case):
         return None
     cnd, ref = items[case.get("ci", 0)] if case.get("ci", 0) < len(items) else items[0]
     ids = {}
@@ -547,6 +572,8 @@ def stratum(case, r):
         return "impl-rejects:" + r["exc"]
     if not expand_cases(case, r):
         return "no-reference-or-unsupported"
+    if shared_detection_noteq(case):
+        return "noteq-shared-detection-unmodelled"
     return "noteq" if case["k"]["not_eq"] else "normal"
 
 
